@@ -23,6 +23,17 @@
 (* statement universe: the wire renders an interval as text "<n><unit>"    *)
 (* with seconds as the finest unit, so such a statement does NOT survive   *)
 (* (neither the grammar nor the planner produce one).                      *)
+(*                                                                         *)
+(* Parse determinism also holds for calls that overlap (a broker parses    *)
+(* every incoming query on its own goroutine): what a call returns is a    *)
+(* function of ITS text, whatever other calls are in flight between its    *)
+(* begin and its end (Begin / End / ResultOf, used by the trace            *)
+(* specification).  mode "calls" models how sql.Parse is built: a lexer    *)
+(* object taken from a pool, a token stream that pulls from that lexer     *)
+(* lazily while the parser runs, the lexer put back when the call ends.    *)
+(* EarlyRelease = TRUE puts the lexer back as soon as the token stream     *)
+(* exists: a second call may then take the same object and the first one   *)
+(* reads the other text (ParseFunction is violated).                       *)
 (***************************************************************************)
 EXTENDS Integers, Sequences, FiniteSets, TLC
 
@@ -33,10 +44,16 @@ CONSTANTS
   MaxDepth,     \* nesting bound
   SiblingsAt(_),\* depth -> the nodes that may sit next to the growing child
   Stmts,        \* model checking: the statements of the universe
-  SubSecond
+  SubSecond,
+  Modes,        \* model checking: which universes to explore ("tree", "stmt", "calls")
+  Texts, Calls, Lexers,   \* mode "calls": texts (token sequences), call ids, lexer objects (1..n)
+  EarlyRelease  \* deviation: the pooled lexer is put back before its token stream has been read
 
-VARIABLES mode, x, d
-vars == <<mode, x, d>>
+VARIABLES mode, x, d,
+          open,       \* the parse calls in flight: call id -> [text, ...]
+          pool, lex   \* mode "calls": the lexer objects in the pool; lexer object -> [input, pos]
+cvars == <<open, pool, lex>>
+vars == <<mode, x, d, open, pool, lex>>
 
 Nil == [k |-> "nil"]
 LeafKinds == {"field", "num", "eq", "like", "regex", "in"}
@@ -144,6 +161,45 @@ SameModuloClock(a, b, abs) ==
   IF abs \/ a.k # "query" \/ b.k # "query" THEN b = a
   ELSE [b EXCEPT !.from = <<0, 0>>, !.to = <<0, 0>>] = [a EXCEPT !.from = <<0, 0>>, !.to = <<0, 0>>]
 
+\* ---------------------------------------------------------------- overlapping parse calls
+\* the specification of a call: it begins with a text, it ends with a result; P is the function text -> result
+\* (in a trace: what the sequential parses have shown), the result of a call is P of its own text
+Begin(c, t) == c \notin DOMAIN open /\ open' = open @@ (c :> [text |-> t])
+End(c) == c \in DOMAIN open /\ open' = [k \in DOMAIN open \ {c} |-> open[k]]
+ResultOf(P, t, r, abs) == t \in DOMAIN P /\ SameModuloClock(P[t], r, abs)
+
+\* how sql.Parse is built (parser.go Parse, getSQLLexer / putSQLLexer; antlr.CommonTokenStream is lazy).  In the
+\* model a text is its token sequence and the statement parsed from it is the sequence of tokens the parser was given.
+\* x: finished call -> [text, res]
+NewLexer == IF Lexers \subseteq DOMAIN lex THEN {} ELSE {CHOOSE n \in Lexers \ DOMAIN lex : \A o \in Lexers \ DOMAIN lex : n <= o}
+\* getSQLLexer: a pooled object (sync.Pool may also hand out none: a new one is made) gets the text as its input;
+\* the token stream is created on top of it
+PBegin(c, t) ==
+  /\ mode = "calls" /\ c \notin DOMAIN open \cup DOMAIN x
+  /\ \E lx \in pool \cup NewLexer :
+       /\ lex' = (lx :> [input |-> t, pos |-> 0]) @@ lex
+       /\ pool' = IF EarlyRelease THEN pool \cup {lx} ELSE pool \ {lx}
+       /\ open' = open @@ (c :> [text |-> t, lx |-> lx, got |-> <<>>, eof |-> FALSE])
+  /\ UNCHANGED <<mode, x, d>>
+\* parser.Statement(): the token stream pulls the next token from ITS lexer object
+PRead(c) ==
+  /\ mode = "calls" /\ c \in DOMAIN open /\ ~open[c].eof
+  /\ LET lx == open[c].lx
+         L == lex[lx]
+     IN IF L.pos < Len(L.input)
+        THEN /\ lex' = [lex EXCEPT ![lx].pos = @ + 1]
+             /\ open' = [open EXCEPT ![c].got = Append(@, L.input[L.pos + 1])]
+        ELSE /\ open' = [open EXCEPT ![c].eof = TRUE]
+             /\ UNCHANGED lex
+  /\ UNCHANGED <<mode, x, d, pool>>
+\* the statement is built from what was read; the deferred putSQLLexer
+PEnd(c) ==
+  /\ mode = "calls" /\ c \in DOMAIN open /\ open[c].eof
+  /\ x' = x @@ (c :> [text |-> open[c].text, res |-> open[c].got])
+  /\ pool' = pool \cup {open[c].lx}
+  /\ End(c)
+  /\ UNCHANGED <<mode, d, lex>>
+
 \* ---------------------------------------------------------------- state machine (model checking)
 \* a tree grows: any constructor is put on top of the current tree, the other children come from SiblingsAt
 Grown(n, S) ==
@@ -156,12 +212,15 @@ Grown(n, S) ==
   \cup {[k |-> "call", f |-> f, ps |-> <<n, y>>] : f \in Funcs, y \in S}
   \cup {[k |-> "call", f |-> f, ps |-> <<y, n>>] : f \in Funcs, y \in S}
 Init ==
-  \/ mode = "tree" /\ x \in Leaves \cup {[k |-> "call", f |-> f, ps |-> <<>>] : f \in Funcs} /\ d = 0
-  \/ mode = "stmt" /\ x = Nil /\ d = 0
+  /\ mode \in Modes /\ open = <<>> /\ pool = {} /\ lex = <<>>
+  /\ \/ mode = "tree" /\ x \in Leaves \cup {[k |-> "call", f |-> f, ps |-> <<>>] : f \in Funcs} /\ d = 0
+     \/ mode = "stmt" /\ x = Nil /\ d = 0
+     \/ mode = "calls" /\ x = <<>> /\ d = 0
 Grow == /\ mode = "tree" /\ d < MaxDepth
-        /\ x' \in Grown(x, SiblingsAt(d + 1)) /\ d' = d + 1 /\ UNCHANGED mode
-PickStmt == /\ mode = "stmt" /\ d = 0 /\ x' \in Stmts /\ d' = 1 /\ UNCHANGED mode
-Next == Grow \/ PickStmt
+        /\ x' \in Grown(x, SiblingsAt(d + 1)) /\ d' = d + 1 /\ UNCHANGED <<mode, cvars>>
+PickStmt == /\ mode = "stmt" /\ d = 0 /\ x' \in Stmts /\ d' = 1 /\ UNCHANGED <<mode, cvars>>
+CallStep == \E c \in Calls : (\E t \in Texts : PBegin(c, t)) \/ PRead(c) \/ PEnd(c)
+Next == Grow \/ PickStmt \/ CallStep
 Spec == Init /\ [][Next]_vars
 
 \* ---------------------------------------------------------------- invariants
@@ -171,4 +230,9 @@ RoundTrip == mode = "tree" => /\ WellFormed(x)
 StmtRoundTrip == (mode = "stmt" /\ d = 1) => /\ WellFormedStmt(x)
                                              /\ (SubSecond \/ (x.iv[2] = 0 /\ x.siv[2] = 0))
                                              /\ Survives(x, DecStmt(EncStmt(x)))
+\* every finished call returned the statement of its own text, whatever ran between its begin and its end
+ParseFunction == mode = "calls" => \A c \in DOMAIN x : x[c].res = x[c].text
+\* ... because a lexer object serves one call at a time
+LexerExclusive == mode = "calls" => /\ \A c1, c2 \in DOMAIN open : c1 # c2 => open[c1].lx # open[c2].lx
+                                    /\ \A c \in DOMAIN open : open[c].lx \notin pool
 =============================================================================
